@@ -70,7 +70,11 @@ def lemma(ctx, name, formula, using=None, flatten=False, skolemize=False, instan
     if skolemize and z3.is_quantifier(f) and f.is_forall():
         cs = [z3.Const(ctx.name('sk!%s!%s' % (name, f.var_name(i))), f.var_sort(i)) for i in range(f.num_vars())]
         goal = z3.substitute_vars(f.body(), *reversed(cs))
-    hyps = _hyps(ctx, using, flatten)
+    if nparr.BOUND is not None:
+        # counterexample search (bounded, quantifiers expanded): everything is quantifier-free already, use all hypotheses
+        hyps, instances = list(ctx.hyps()), None
+    else:
+        hyps = _hyps(ctx, using, flatten)
     if instances is not None:
         allh = _flatten(list(ctx.hyps())) if flatten else list(ctx.hyps())
         ids = set(h.get_id() for h in allh)
